@@ -175,7 +175,12 @@ func (c Config) Draw(t *rapid.T) Inst {
 		return Inst{{K: k, P: path("p")}, {K: "Getwd"}, {K: "Stat", P: "."}}
 	case "OpenChdir":
 		// the working directory set through an open directory: wherever and however it was opened
-		return Inst{{K: "Open", P: path("p"), Flag: os.O_RDONLY, H: 0}, {K: "FChdir", H: 0}, {K: "Getwd"}, {K: "Stat", P: "."}, {K: "FClose", H: 0}}
+		in := Inst{{K: "Open", P: path("p"), Flag: os.O_RDONLY, H: 0}}
+		if rapid.Bool().Draw(t, "move-first") {
+			// the handle outlives a change of directory: it still stands for the directory it was opened on
+			in = append(in, fsx.Op{K: "Chdir", P: path("elsewhere")})
+		}
+		return append(in, fsx.Op{K: "FChdir", H: 0}, fsx.Op{K: "Getwd"}, fsx.Op{K: "Stat", P: "."}, fsx.Op{K: "FClose", H: 0})
 	case "Glob":
 		pat := rapid.SampledFrom([]string{"*", "a*", "?", "*/*", "[ab]", "a/*", "b"}).Draw(t, "pat")
 		dir := rapid.SampledFrom(abs).Draw(t, "gdir")
@@ -289,6 +294,7 @@ func (c Config) All(reduced, withRel bool) []Inst {
 		case "OpenChdir":
 			for _, p := range paths {
 				r = append(r, Inst{{K: "Open", P: p, Flag: os.O_RDONLY, H: 0}, {K: "FChdir", H: 0}, {K: "Getwd"}, {K: "Stat", P: "."}, {K: "FClose", H: 0}})
+				r = append(r, Inst{{K: "Open", P: p, Flag: os.O_RDONLY, H: 0}, {K: "Chdir", P: c.Base}, {K: "FChdir", H: 0}, {K: "Getwd"}, {K: "Stat", P: "."}, {K: "FClose", H: 0}})
 			}
 		case "WalkDir":
 			for _, p := range paths {
